@@ -280,6 +280,7 @@ int main(int argc, char** argv)
             g_big_cases++;
             int type = (big > 0xffffffffull) ? 5 : ((big > 0x7fffffffull) ? (int) (1 + 2 * r.below(3)) : (int) r.below(6));
             if (type == 1 && big > 0xffffffffull) type = 5;
+            if (a.has("type")) type = (int) a.u64("type", 5);    // the narrowest type that can hold the shape is the interesting one
             any_type(type, big, {}, (int) r.below(3), (int) r.below(2), (unsigned) r.below(W), false);
         }
         auto t = totals();
